@@ -255,18 +255,19 @@ def count_lines(path):
 CHUNK = 100000
 
 
-def validate_trace(trace_module, events_path, workdir, tag, timeout=1800, constants=None, invariants=()):
+def validate_trace(trace_module, events_path, workdir, tag, timeout=1800, constants=None, invariants=(), chunk=None):
     """Cut long traces into chunks of at most CHUNK events (stateful traces only at "reset" events) and
     validate the chunks with several TLC processes; indices are reported relative to the whole file."""
     n = count_lines(events_path)
-    if n <= CHUNK:
+    CHUNK_ = chunk or CHUNK
+    if n <= CHUNK_:
         return validate_trace_one(trace_module, events_path, workdir, tag, timeout, constants, invariants)
     from concurrent.futures import ThreadPoolExecutor
     chunks, cur, cur_n, start = [], None, 0, 1
     idx = 0
     with open(events_path) as f:
         for i, line in enumerate(f, 1):
-            boundary = cur is None or (cur_n >= CHUNK and (trace_module in ("Trace_Stateless", "Trace_Features") or '"ev":"reset"' in line.replace(" ", "")
+            boundary = cur is None or (cur_n >= CHUNK_ and (trace_module in ("Trace_Stateless", "Trace_Features") or '"ev":"reset"' in line.replace(" ", "")
                                                            or '"ev":"begin"' in line.replace(" ", "")))
             if boundary:
                 if cur is not None:
@@ -291,7 +292,7 @@ def validate_trace(trace_module, events_path, workdir, tag, timeout=1800, consta
         results = list(ex.map(one, enumerate(chunks)))
     res = dict(events=n, accepted=sum(r["accepted"] for r in results), rejected=[x for r in results for x in r["rejected"]],
                generated=sum(r["generated"] for r in results), distinct=sum(r["distinct"] for r in results),
-               wall=sum(r["wall"] for r in results), cmd=results[0]["cmd"] + "  (x%d chunks of <= %d events)" % (len(chunks), CHUNK))
+               wall=sum(r["wall"] for r in results), cmd=results[0]["cmd"] + "  (x%d chunks of <= %d events)" % (len(chunks), CHUNK_))
     return res
 
 
